@@ -572,6 +572,35 @@ func checkC07(cfg *kit.Config) (*Failure, bool) {
 		return fail("C07", "no-panic", "build", "Build panicked: %v", x.Build.Panic), false
 	}
 	verdict := kit.Classify(x.Build.Err)
+	if cfg.LateDuringBuild && cfg.PreBuild > 0 {
+		// which registrations the Build saw is not known: a provider, if there is one, is judged by
+		// what its long-lived services hold
+		if x.Build.Err != nil {
+			return nil, len(conflicts) > 0
+		}
+		x.resolveEverything()
+		x.resolveEverything()
+		var f *Failure
+		for _, a := range x.W.Anomalies() {
+			if strings.Contains(a, "while Build was under way") {
+				f = fail("C07", "no-hang", "add-during-build", "%s", a)
+			}
+		}
+		for _, inv := range x.W.AllInvs() {
+			if m.Regs[inv.Reg].Life == kit.Scoped {
+				continue
+			}
+			for _, a := range inv.Args {
+				for _, e := range a.Entries {
+					if e != nil && m.Regs[e.Reg].Life == kit.Scoped {
+						f = fail("C07", "holds-no-scoped", "registered-during-build/"+lifeName(m.Regs[inv.Reg].Life)+"/"+depVia(a.Dep), "Build returned a provider in which %s r%d was constructed with %v, an instance of scoped r%d (registered while Build was under way)", lifeName(m.Regs[inv.Reg].Life), inv.Reg, e, e.Reg)
+					}
+				}
+			}
+		}
+		x.R.CloseProvider()
+		return f, len(conflicts) > 0
+	}
 	if len(conflicts) > 0 {
 		if verdict != kit.VLifetime {
 			c := conflicts[0]
@@ -713,6 +742,14 @@ func propC07Random(col *evid.Collector) func(rt *rapid.T) {
 		if rapid.IntRange(0, 3).Draw(rt, "late") == 0 && kit.PlantLateCaptive(rt, cfg) {
 			// the scoped provider is registered after the collection was built once without it
 			planted = append(planted, "captive-only-at-the-second-build")
+			if rapid.IntRange(0, 1).Draw(rt, "duringBuild") == 0 {
+				// ... or no first Build at all: the late registrations arrive from another goroutine while the
+				// only Build is under way. Whatever Build makes of that - if it returns a provider, no
+				// long-lived service of that provider holds a scoped instance.
+				cfg.LateDuringBuild = true
+				cfg.LateAt = rapid.IntRange(1, 6).Draw(rt, "lateAt")
+				planted = append(planted, "registered-while-build-is-under-way")
+			}
 		}
 		if rapid.IntRange(0, 2).Draw(rt, "sliceNamed") == 0 && kit.PlantSliceNamed(rt, cfg) {
 			planted = append(planted, "scoped-slice-service-named-like-a-group-field")
